@@ -115,11 +115,12 @@ Lemma returning_denoms_differ : forall sha pkt d,
 Proof.
   intros sha pkt d Hret Hsha. unfold received_denom. rewrite Hret. rewrite ibc_denom_shape.
   set (un := skipn _ (fd_denom d)) in *.
-  unfold trace_ibc_denom.
+  unfold unescrow_denom, trace_ibc_denom.
   destruct (split_last_slash un) as [[p b]|] eqn:E.
   - destruct p as [|c p].
-    + (* "/base": the base has no "/" while "ibc/.." has one *)
-      intros H. apply (sls_base_no_slash _ _ _ E). rewrite <- H. unfold ibc_slash. cbn. unfold slash. tauto.
+    + (* "/base": the released denomination is the string "/base" itself, which does not start with "i" *)
+      intros H. rewrite (sls_join _ _ _ E) in H. cbn [app] in H. unfold ibc_slash in H. cbn [app] in H.
+      inversion H.
     + change ((c :: p) ++ [slash] ++ b) with ((c :: p) ++ slash :: b).
       rewrite <- (sls_join _ _ _ E). intros H. apply app_inv_head in H. apply hex_upper_inj in H. contradiction.
   - intros H. apply (sls_none_no_slash _ E). rewrite <- H. unfold ibc_slash. cbn. unfold slash. tauto.
@@ -265,6 +266,28 @@ Section Generic.
     rewrite hex_upper_tail. cbn [length]. rewrite hex_upper_length, H. reflexivity.
   Qed.
 
+  (** pointwise form: the hypotheses are about THIS packet and the state the wrapped application left — so the
+      statement also applies to conversions that can panic on other states (the concrete [convert_coin] panics on
+      256-bit overflows; see [concrete_no_new_panic] in Proofs/Ics20Convert.v) *)
+  Lemma middleware_no_new_panic_at : forall st pkt st1 a,
+    transfer_recv st pkt = Ok (st1, a) ->
+    (ack_success a = true ->
+     exists d amt, decode (pk_data pkt) = Some d /\ parse_int (fd_amount d) = Some amt /\ 0 < amt /\
+       length (sha256 (denom_prefix (pk_dport pkt) (pk_dchan pkt) ++ fd_denom d)) = 32%nat /\
+       convert st1 (hook_msg pkt d amt) <> Panic) ->
+    exists st2 hp, middleware st pkt = Ok (st2, Some a, hp).
+  Proof.
+    intros st pkt st1 a Et Hs. unfold Ics20.middleware, middleware_gen. rewrite Et.
+    destruct (ack_success a) eqn:Es; cbn [negb]; [|eauto].
+    destruct (Hs eq_refl) as (d & amt & Ed & Ea & Hpos & Hsha & Hcv).
+    unfold Ics20.hook, Ics20.hook_gen. rewrite Ed, Ea.
+    destruct (_ && _); [eauto|].
+    destruct (is_registered st1 _); cbn [negb]; [|eauto].
+    replace (amt <? 0) with false by (symmetry; apply Z.ltb_ge; lia).
+    cbn [hook_msg Ics20.hook_msg cm_denom]. rewrite ibc_denom_valid by exact Hsha. cbn [negb orb].
+    destruct (convert st1 _) as [s2| |] eqn:Ec; [eauto|eauto|]. exfalso. exact (Hcv eq_refl).
+  Qed.
+
   Lemma middleware_no_new_panic :
     transfer_sound ->
     (forall x, length (sha256 x) = 32%nat) ->
@@ -272,15 +295,34 @@ Section Generic.
     forall st pkt st1 a, transfer_recv st pkt = Ok (st1, a) ->
     exists st2 hp, middleware st pkt = Ok (st2, Some a, hp).
   Proof.
-    intros Hts Hsha Hcv st pkt st1 a Et. unfold Ics20.middleware, middleware_gen. rewrite Et.
-    destruct (ack_success a) eqn:Es; cbn [negb]; [|eauto].
+    intros Hts Hsha Hcv st pkt st1 a Et. apply (middleware_no_new_panic_at _ _ _ _ Et). intros Es.
     destruct (Hts _ _ _ _ Et Es) as (d & amt & Ed & Ea & Hpos).
-    unfold Ics20.hook, Ics20.hook_gen. rewrite Ed, Ea.
-    destruct (_ && _); [eauto|].
-    destruct (is_registered st1 _); cbn [negb]; [|eauto].
-    replace (amt <? 0) with false by (symmetry; apply Z.ltb_ge; lia).
-    cbn [hook_msg Ics20.hook_msg cm_denom]. rewrite ibc_denom_valid by apply Hsha. cbn [negb orb].
-    destruct (convert st1 _) as [s2| |] eqn:Ec; [eauto|eauto|]. exfalso. exact (Hcv _ _ Ec).
+    exists d, amt. repeat split; auto.
+  Qed.
+
+  (** conversely the ONLY panics the middleware adds are the hook's: sdk.NewCoin (negative amount / invalid
+      denomination) or a panic inside ConvertCoin, both after a successful transfer of a registered denomination *)
+  Lemma middleware_panic_inv : forall st pkt,
+    middleware st pkt = Panic ->
+    transfer_recv st pkt = Panic \/
+    exists st1 a d amt, transfer_recv st pkt = Ok (st1, a) /\ ack_success a = true /\
+      decode (pk_data pkt) = Some d /\ parse_int (fd_amount d) = Some amt /\
+      is_registered st1 (cm_denom (hook_msg pkt d amt)) = true /\
+      (amt < 0 \/ valid_denom (cm_denom (hook_msg pkt d amt)) = false \/ convert st1 (hook_msg pkt d amt) = Panic).
+  Proof.
+    intros st pkt H. unfold Ics20.middleware, middleware_gen in H.
+    destruct (transfer_recv st pkt) as [[st1 a]| |] eqn:Et; [|discriminate|left; reflexivity].
+    right. destruct (ack_success a) eqn:Es; cbn [negb] in H; [|discriminate].
+    destruct (hook st1 pkt a) as [[[s o] p]| |] eqn:Eh; try discriminate. clear H.
+    unfold Ics20.hook, Ics20.hook_gen in Eh.
+    destruct (decode (pk_data pkt)) as [d|] eqn:Ed; [|discriminate].
+    destruct (parse_int (fd_amount d)) as [amt|] eqn:Ea; [|discriminate].
+    destruct (_ && _); [discriminate|].
+    destruct (is_registered st1 _) eqn:Er; cbn [negb] in Eh; [|discriminate].
+    exists st1, a, d, amt. repeat split; auto.
+    destruct (amt <? 0) eqn:E1; [left; apply Z.ltb_lt; exact E1|]. cbn [orb] in Eh.
+    destruct (valid_denom _) eqn:E2; [|right; left; reflexivity]. cbn [negb] in Eh.
+    destruct (convert st1 _) as [s2| |] eqn:Ec; try discriminate. right; right; reflexivity.
   Qed.
 
   (** ** Failed transfer: the hook is not even called *)
@@ -359,6 +401,30 @@ Section Generic.
     destruct (middleware_transparent _ _ _ _ _ Hm) as (st1 & a & Et & Eo). subst oa.
     unfold Ics20.bare in Hb. rewrite Et in Hb.
     destruct (ack_bytes a); [discriminate|]. inversion Hb; subst. eexists; split; [reflexivity|discriminate].
+  Qed.
+
+  (** ** Histories: in EVERY history of received packets, from every initial state, each packet that ibc-go core
+      processes is committed with the transfer application's acknowledgement for the state that packet met — the
+      very commitment core would store around the bare module in that state — and a packet acknowledged with an
+      error leaves the state it met. *)
+  Lemma history_acks : forall pkts st s p st' oc,
+    In (s, p, Ok (st', oc)) (core_history state sha256 middleware st pkts) ->
+    exists st1 a, transfer_recv s p = Ok (st1, a) /\ ack_bytes a <> [] /\
+      oc = Some (sha256 (ack_bytes a)) /\
+      (ack_success a = false -> st' = s) /\
+      exists st'', core_recv bare s p = Ok (st'', oc).
+  Proof.
+    induction pkts as [|q t IH]; intros st s p st' oc H; cbn [core_history In] in H; [contradiction|].
+    destruct H as [H|H].
+    - injection H as E1 E2 E3. subst s p. apply core_commits_transfer_ack. exact E3.
+    - eapply IH. exact H.
+  Qed.
+
+  (** no packet of a history is left unacknowledged: whenever core returns for it, something is stored *)
+  Lemma history_no_silent_packet : forall pkts st s p st',
+    ~ In (s, p, Ok (st', None)) (core_history state sha256 middleware st pkts).
+  Proof.
+    intros pkts st s p st' H. apply history_acks in H. destruct H as (st1 & a & _ & _ & H & _). discriminate.
   Qed.
 
   (** ** The code before 6fec139: a successful transfer is never acknowledged, although its effects are written *)
